@@ -62,6 +62,14 @@ def check(rep):
         large = bytes(isogen.render([large_variant(box)]).data)
         datas += [plain, large + boxcheck.SIB]
         meta += [(label, "compact", plain), (label, "hdr64", large)]
+        # the 64-bit form on each CHILD box of a container (one child at a time)
+        kids = [i for i, it in enumerate(box.items) if isinstance(it, isogen.Box)]
+        for ci in kids:
+            ch = box.items[ci]
+            alt = isogen.Box(box.typ, box.items[:ci] + [isogen.Box(ch.typ, ch.items, large=True, pad=ch.pad)] + box.items[ci + 1:], box.large, box.pad)
+            ab = bytes(isogen.render([alt]).data)
+            datas += [plain, ab + boxcheck.SIB]
+            meta += [(label + "/child%d" % ci, "compact", plain), (label + "/child%d" % ci, "hdr64", ab)]
     fails, ties = [], []
     known = [f for f in common.known_findings() if f["property"] == "C05" and f["status"] == "known"]
     seen = set()
@@ -87,7 +95,7 @@ def check(rep):
                 ties.append(("model_vs_impl_%s_%d" % (profile, len(ties)), dict(t, kind="correspondence", case=label, profile=profile, box=plain.hex())))
             if ic.get("dec") == "ok":
                 stats["decode_ok"] += 1 if profile == "debug" else 0
-                if short.startswith(CANON_PREFIX) and ic.get("enc") == "ok":
+                if short.startswith(CANON_PREFIX) and "/child" not in short and ic.get("enc") == "ok":
                     stats["canonical_checked"] += 1 if profile == "debug" else 0
                     if ic["bytes"] != plain.hex():
                         a, b = ic["bytes"], plain.hex()
